@@ -525,6 +525,8 @@ where
 
         let (index, conflict) = self.key_to_hash.build_key(k);
         // delete immediately
+        #[cfg(transparencies_stretto_verif)]
+        crate::verif::yield_point("remove.before_store_remove");
         let prev = self.store.try_remove(&index, conflict)?;
 
         if let Some(prev) = prev {
@@ -583,6 +585,8 @@ where
             return Ok(false);
         }
 
+        #[cfg(transparencies_stretto_verif)]
+        crate::verif::yield_point("insert.before_store_update");
         self.try_update(key, val, cost, ttl, only_update)?
             .map_or(Ok(false), |(index, item)| {
                 #[cfg(transparencies_stretto_verif)]
